@@ -63,6 +63,22 @@ func (r *RNG) RegProgram(o ProgOpts, gradients bool) []Call {
 		}
 		if gradients && r.Chance(50) {
 			cs = append(cs, r.GradientSetup()...)
+			if r.Chance(25) {
+				// several paths in a row painted from registers written BEFORE the first of them, nothing written in between:
+				// CREG[CSEL] the gradient just set up, CREG[CSEL-1] another gradient descriptor (mostly one the Renderer must
+				// skip: no or one stop), CREG[CSEL-2] a flat colour (round 6, C04-K: a Renderer that keeps the gradient built
+				// for the previous gradient path, and whose failed build of the skipped one has already overwritten it)
+				n2 := r.Intn(2)
+				if r.Chance(20) {
+					n2 = r.Intn(64)
+				}
+				g2 := ivg.EncodeGradient(uint8(r.Intn(64)), uint8(r.Intn(64)), uint8(r.Intn(2)), uint8(r.Intn(4)), uint8(n2))
+				cs = append(cs, Call{Name: "creg", Adj: 1, Col: ivg.RGBAColor(g2)}, Call{Name: "creg", Adj: 2, Col: ivg.RGBAColor(r.Premul())})
+				seq := [][]uint8{{0, 1, 0}, {0, 1, 1, 0}, {1, 0, 1, 0}, {0, 2, 1, 0}, {0, 1, 2, 0}}[r.Intn(5)]
+				for _, adj := range seq {
+					cs = append(cs, Call{Name: "start", Adj: adj, F: fl(r.Coord(), r.Coord())}, r.DrawCall(o, "L"), r.DrawCall(o, "l"), Call{Name: "Z"})
+				}
+			}
 		}
 		if r.Chance(20) {
 			cs = append(cs, Call{Name: "rc"}, Call{Name: "rn"})
@@ -260,12 +276,16 @@ func checkDecodeSafety(caseLine string, src []byte) (fails []Failure) {
 	func() {
 		defer func() {
 			if p := recover(); p != nil {
+				if _, ok := p.(WorkLimit); ok {
+					fails = append(fails, Failure{"C02.raster-linear", caseLine, fmt.Sprintf("more than %d rasteriser calls for %d bytes of input (at most four per delivered call, at most one call per byte)", 4*len(src)+64, len(src))})
+					return
+				}
 				fails = append(fails, Failure{"C02.no-panic", caseLine, fmt.Sprint("Decode into Encoder/Renderer: ", p)})
 			}
 		}()
 		var e encode.Encoder
 		decode.Decode(&e, src)
-		rec := &RecRaster{}
+		rec := &RecRaster{Limit: 4*len(src) + 64}
 		var z render.Renderer
 		z.SetRasterizer(rec, image.Rect(0, 0, 32, 32))
 		decode.Decode(&z, src)
@@ -305,6 +325,12 @@ func monitorC02(caseLine string) []Failure {
 		return nil
 	}
 	hdr := strings.Fields(parts[0])
+	if hdr[0] == "ren" {
+		if rect, _, cs, ok := parseRenCase(caseLine); ok {
+			return monitorRasterWork(caseLine, rect, cs)
+		}
+		return nil
+	}
 	if hdr[0] != "dec" && hdr[0] != "dvb" && hdr[0] != "dis" {
 		return nil
 	}
@@ -400,6 +426,38 @@ func suiteC02(s *Shard, n int) {
 				if got != obsR {
 					s.Fail("C02.renderer-behind-decoder", line, "Decode into Renderer differs from Renderer driven by the delivered calls")
 				}
+				for _, f := range monitorRasterWork(line, rect, calls) {
+					s.Fail(f.Clause, f.Case, f.Detail)
+				}
+			}
+		}
+		if i%16 == 3 {
+			// arcs whose radii are far beyond the raster (4-byte operands: any finite float32): still at most four curve
+			// segments each, whatever the radius is in pixels (round 6, C02-K: a subdivision count scaled by the radius)
+			r := s.R
+			cs := []Call{{Name: "reset", VB: ivg.DefaultViewBox, Pal: ivg.DefaultPalette}, {Name: "start", F: fl(r.Coord(), r.Coord())}}
+			for k := 1 + r.Intn(4); k > 0; k-- {
+				rx := float32(math.Ldexp(1+float64(r.Intn(8))/8, 6+r.Intn(60)))
+				ry := rx
+				if r.Bool() {
+					ry = float32(math.Ldexp(1+float64(r.Intn(8))/8, 6+r.Intn(60)))
+				}
+				cs = append(cs, Call{Name: []string{"A", "a"}[r.Intn(2)], F: fl(rx, ry, float32(r.Intn(16))/16, 1+float32(r.Intn(40)), 1+float32(r.Intn(40))), La: r.Bool(), Sw: r.Bool()})
+			}
+			cs = append(cs, Call{Name: "Z"})
+			if b, err := EncodeCalls(cs, true); err == nil {
+				l2 := DecCase(nil, b)
+				s.EmitRun(l2)
+				if calls, _, p := Decode(nil, b); p == "" {
+					rect := image.Rect(0, 0, 1+r.Intn(256), 1+r.Intn(256))
+					fs := monitorRasterWork(RenCase(rect, nil, calls), rect, calls)
+					for _, f := range fs {
+						s.Fail(f.Clause, f.Case, f.Detail)
+					}
+					if len(fs) == 0 {
+						s.emitRen(rect, nil, calls)
+					}
+				}
 			}
 		}
 		for _, f := range checkDecodeSafety(line, src) {
@@ -411,6 +469,46 @@ func suiteC02(s *Shard, n int) {
 			}
 		}
 	}
+}
+
+// monitorRasterWork: C02 — every Destination call makes at most four calls on the rasteriser (an arc: at most four
+// curve segments), so that the work behind the decoder is linear in the number of delivered calls.
+func monitorRasterWork(line string, rect image.Rectangle, cs []Call) (fails []Failure) {
+	rec := &RecRaster{}
+	var z render.Renderer
+	z.SetRasterizer(rec, rect)
+	defer func() {
+		if p := recover(); p != nil {
+			fails = append(fails, Failure{"C02.no-panic", line, fmt.Sprint(p)})
+		}
+	}()
+	for i, c := range cs {
+		if !c.IsDest() {
+			continue
+		}
+		before := len(rec.Log)
+		rec.Limit = before + 64
+		over := func() (over bool) {
+			defer func() {
+				if p := recover(); p != nil {
+					if _, ok := p.(WorkLimit); !ok {
+						panic(p)
+					}
+					over = true
+				}
+			}()
+			c.Apply(&z)
+			return false
+		}()
+		if d := len(rec.Log) - before; d > 4 || over {
+			n := fmt.Sprint(d)
+			if over {
+				n = "more than 64"
+			}
+			return append(fails, Failure{"C02.rasteriser-work-bounded", line, fmt.Sprintf("call %d (%s) made %s calls on the rasteriser, at most 4 per Destination call", i, c.String(), n)})
+		}
+	}
+	return
 }
 
 // obsSig: error kind + set of delivered call names
